@@ -40,10 +40,11 @@ META = {
         "cross-reference stream (dictionary entries and payload) and every stream's /Length are fault sites too; /Prev additionally "
         "gets the value 'offset of its own section'. structural faults: every dictionary entry, array element, stream-dictionary "
         "entry, top-level object and trailer entry x {null,int,real,name,string,array,dict,boolean,ref->self,ref->missing,"
-        "ref->ancestor(cycle), empty array, empty dict, 2**70, 2**63-1, 10**400, a 400-digit real, -1} (the representative of the value's own type skipped) plus key removal; payload faults: every stream truncated at "
+        "ref->ancestor(cycle), empty array, empty dict, 2**70, 2**63-1, 10**400, a 400-digit real, -1, 0} (the representative of the value's own type skipped) plus key removal; payload faults: every stream truncated at "
         "every length and emptied (thorough: one byte replaced at every position by 00,FF,'<','('); file truncated at every byte; content-stream faults on the graphics seed, whose "
         "page content is kept as a list of 117 operator invocations covering 71 distinct operators: every operand x {the 16 wrong-type/extreme values, 0, nested array, mixed array, removed, duplicated}, every operator dropped "
-        "(its operands stay on the stack), every operator repeated without operands, every operator replaced by each of the 76 other keywords (all operators of the seed, d0, d1, R, obj, endstream, an unknown word). "
+        "(its operands stay on the stack), every operator repeated without operands, every operator replaced by each of the 76 other keywords (all operators of the seed, d0, d1, R, obj, endstream, an unknown word); token faults: in every unfiltered text-like stream (ToUnicode and embedded CMaps, Type3 glyph procedures, content streams) "
+        "every white-space delimited token replaced by each of 16 tokens (nothing, <>, 1-, 4- and 8-byte hex strings, 0, 7, -1, 99999999999, a name, a string, [ ] << >>, an unknown word). "
         "One fault per execution, each run through the listed entry points under a counted work budget (sys.monitoring "
         "PY_START+JUMP events <= 50 x the undamaged seed's count + 100000 + 2000 x file length). non-trivial = the damaged file differs from the seed "
         "and the outcome was judged; a 'scaling' family runs valid documents of 16/64/256 pages (classic table; everything in one "
@@ -64,16 +65,16 @@ META = {
 }
 
 KINDS = ["null", "int", "real", "name", "string", "array", "dict", "boolean", "refself", "refmissing", "refancestor", "remove",
-         "emptyarray", "emptydict", "bigint", "negint", "maxint", "hugeint", "hugereal"]
+         "emptyarray", "emptydict", "bigint", "negint", "maxint", "hugeint", "hugereal", "zero"]
 # extreme values of a type: applied even where the site already has that type
-EXTREME = {"emptyarray": "array", "emptydict": "dict", "bigint": "int", "negint": "int", "maxint": "int", "hugeint": "int", "hugereal": "real"}
+EXTREME = {"emptyarray": "array", "emptydict": "dict", "bigint": "int", "negint": "int", "maxint": "int", "hugeint": "int", "hugereal": "real", "zero": "int"}
 
 
 def kind_value(kind: str, num: int, ancestor: int) -> Any:
     return {
         "null": None, "int": 7, "real": 1.5, "name": N("Zz"), "string": b"zz", "array": [1, b"s"], "dict": {"Zz": 1},
         "boolean": True, "refself": Ref(num), "refmissing": Ref(9999), "refancestor": Ref(ancestor),
-        "emptyarray": [], "emptydict": {}, "bigint": 2**70, "negint": -1, "maxint": 2**63 - 1, "hugeint": 10**400, "hugereal": Raw(b"9" * 400 + b".5"),
+        "emptyarray": [], "emptydict": {}, "bigint": 2**70, "negint": -1, "maxint": 2**63 - 1, "hugeint": 10**400, "hugereal": Raw(b"9" * 400 + b".5"), "zero": 0,
     }[kind]
 
 
@@ -125,6 +126,38 @@ def damaged_ops(fault: Tuple, num: int) -> bytes:
     elif fault[0] == "opreplace":
         ops[i] = (operands, fault[2], raw)
     return S.ser_ops(ops)
+
+
+# token faults on text-like stream payloads (CMaps, content streams): every white-space delimited token replaced by each of these
+TOKEN_REPL = [b"", b"<>", b"<FF>", b"<FFFFFFFF>", b"<0000000000000000>", b"0", b"7", b"-1", b"99999999999", b"/Zz", b"(s)", b"[", b"]", b"<<", b">>", b"zz"]
+
+
+def text_streams(name: str) -> List[int]:
+    doc, kw = S.SEEDS[name]()
+    out = []
+    for num in sorted(doc.objs):
+        o = doc.objs[num][1]
+        if isinstance(o, Stream) and "Filter" not in o.d and num != kw.get("ops") and o.data and all(32 <= b < 127 or b in (9, 10, 13) for b in o.data):
+            out.append(num)
+    return out
+
+
+def _tokens(data: bytes) -> List[Tuple[int, int]]:
+    import re
+
+    return [(m.start(), m.end()) for m in re.finditer(rb"[^ \t\r\n]+", data)]
+
+
+def token_faults(name: str) -> List[Tuple]:
+    doc, kw = S.SEEDS[name]()
+    out: List[Tuple] = []
+    for num in text_streams(name):
+        data = doc.objs[num][1].data
+        for i, (a, b) in enumerate(_tokens(data)):
+            for r, repl in enumerate(TOKEN_REPL):
+                if data[a:b] != repl:
+                    out.append(("tok", num, i, r))
+    return out
 
 
 def type_of(v: Any) -> str:
@@ -294,6 +327,11 @@ def materialise(name: str, fault: Tuple) -> bytes:
             st.data = st.data[:pos]
         else:
             st.data = st.data[:pos] + bytes([val]) + st.data[pos + 1:]
+    elif fault[0] == "tok":
+        _, num, i, r = fault
+        st = doc.objs[num][1]
+        a, b = _tokens(st.data)[i]
+        st.data = st.data[:a] + TOKEN_REPL[r] + st.data[b:]
     elif fault[0] in ("operand", "opdrop", "opdup", "opreplace"):
         doc.objs[kw["ops"]][1].data = damaged_ops(fault, kw["ops"])
     mutate = None
@@ -499,6 +537,10 @@ def shards(tier):
         fs = op_faults(name)
         for i in range(0, len(fs), 200):
             out.append(("ops", name, i, min(i + 200, len(fs))))
+    for name in t["seeds"]:
+        fs = token_faults(name)
+        for i in range(0, len(fs), 250):
+            out.append(("tokens", name, i, min(i + 250, len(fs))))
     for name in t["payload_seeds"]:
         doc, kw = S.SEEDS[name]()
         for num in sorted(doc.objs):
@@ -527,6 +569,12 @@ def run_shard(shard, tier, st):
             judge(st, name, f, data, t["entries"], seed_bytes)
         if shard[2] == 0:
             st.sample({"seed": name, "fault": fs[3], "bytes": len(seed_bytes)})
+    elif shard[0] == "tokens":
+        fs = token_faults(name)[shard[2]:shard[3]]
+        for f in fs:
+            judge(st, name, f, materialise(name, f), t["entries"], seed_bytes)
+        if shard[2] == 0:
+            st.sample({"seed": name, "fault": fs[3], "text_streams": text_streams(name), "replacements": [x.decode() for x in TOKEN_REPL]})
     elif shard[0] == "ops":
         fs = op_faults(name)[shard[2]:shard[3]]
         for f in fs:
